@@ -1092,6 +1092,13 @@ fn gate(repo: &Path) -> R {
         return Err(format!("get_function: use of `self` outside the model: `{bad}`"));
     }
 
+    // `Package::get_function` is the module's, unchanged: no other table, no renaming, no fallback
+    let pl = find::parse(repo, "src/pipeline.rs")?;
+    let pg = find::func(&pl, "get_function", Some("Package"))?;
+    if toks(&pg.block) != "{self.module.get_function(name)}" {
+        return Err(format!("Package::get_function: expected `self.module.get_function(name)`, found `{}`", toks(&pg.block)));
+    }
+
     // ---- type identity: `Type::named` builds a name in the GLOBAL scope, and
     // equality of `Type` / `TypeName` / `ResolvedName` / `ScopeRef` /
     // `Identifier` is the derived, field-by-field one (so `==` on a named type
@@ -1404,6 +1411,31 @@ fn gatetab(repo: &Path) -> R {
         mir_kinds.push((meth.clone(), kind.to_string(), prefix));
     }
 
+    // the signature each lowering method hands to `function_like` (it becomes the table's signature):
+    // a test has no parameters and returns `Type::verdict(Type::unit(), Type::unit())`; a function and a
+    // filtermap return what their declared / inferred signature says
+    let mut ret_sources: Vec<(String, String)> = vec![];
+    for (meth, _, _) in mir_kinds.iter().filter(|k| k.1 == "Function") {
+        let f = find::func(&mir, meth, None)?;
+        let s = toks(&f.block);
+        let src = if s.contains("letreturn_type=Type::verdict(Type::unit(),Type::unit());letparams=ast::Params(Vec::new());self.function_like(&ident,&params,&return_type,&test.body)") {
+            "verdict(unit,unit)"
+        } else if s.contains("letsignature=self.type_info.function_signature(ident);self.function_like(ident,params,&signature.return_type,body)") {
+            "function_signature(ident).return_type"
+        } else if s.contains("letDeclarationKind::Function(Some(func_dec))=dec.kindelse{ice!();};letret=&func_dec.signature.return_type;self.function_like(&function.ident,&function.params,ret,&function.body,)") {
+            "declaration.signature.return_type"
+        } else {
+            return Err(format!("mir {meth}: the return type handed to function_like is outside the model: `{}`", &s[..s.len().min(300)]));
+        };
+        ret_sources.push((meth.clone(), src.to_string()));
+    }
+    let types_rs = find::parse(repo, "src/typechecker/types.rs")?;
+    let verdict_body = toks(&find::func(&types_rs, "verdict", Some("Type"))?.block);
+    let unit_body = toks(&find::func(&types_rs, "unit", Some("Type"))?.block);
+    if verdict_body != "{Type::named(\"Verdict\",vec![a.borrow().clone(),b.borrow().clone()])}" || unit_body != "{Type::Unit}" {
+        return Err(format!("Type::verdict / Type::unit outside the model: `{verdict_body}` / `{unit_body}`"));
+    }
+
     // ---- stage 2: src/lir/lower.rs and the helper generators
     let lir = find::parse(repo, "src/lir/lower.rs")?;
     let item = find::func(&lir, "item", None)?;
@@ -1616,6 +1648,15 @@ fn gatetab(repo: &Path) -> R {
         "/-- every mention of the field `functions` in src/codegen/mod.rs, by kind -/\ndef functionsFieldUses : List (String × Nat) := [{}]\n\n",
         uses.iter().map(|(k, n)| format!("({k:?}, {n})")).collect::<Vec<_>>().join(", ")
     ));
+    out.push_str(&format!(
+        "/-- where the return type of the signature handed on by each function-like lowering method comes from -/\ndef returnTypeSources : List (Ident × Ident) := [\n  {}]\n\n",
+        pairs(&ret_sources)
+    ));
+    if ret_sources.iter().any(|r| r.1 == "verdict(unit,unit)") {
+        out.push_str("/-- the signature `Mir::lower` gives a test: no parameters, `Type::verdict(Type::unit(), Type::unit())` = `Type::named(\"Verdict\", vec![Type::Unit, Type::Unit])` -/\ndef testSig : Signature := ⟨[], RotoTy.named ");
+        out.push_str(&lit_ident("Verdict"));
+        out.push_str(" [RotoTy.unit, RotoTy.unit]⟩\n\n");
+    }
     out.push_str("def pipeline : Pipeline := ⟨mirArms, mirKinds, lirArms, helperItems, declareAccepts⟩\n\nend RotoV.Gen.GateTab\n");
     Ok(out)
 }
